@@ -130,12 +130,11 @@ Print Assumptions C19_dataset_zipped_multiindex.
 (* "whose values equal the map result" / "identical datasets", model side (by C01_map_run_denotes): for a
    valid request the values that the model of the datasets shows for every output (Run_C19.run reads them
    from the model of Pipeline.map, `outv`) are the denotation, and returned and stored values agree *)
-Theorem C19_values_are_denotation : forall c den,
-  request_ok (c_funcs c) (c_inputs c) = true ->
-  denote_run sym_body (c_funcs c) (c_inputs c) (c_internal c) = Ok den ->
-  exists st, map_run sym_body (c_funcs c) (c_inputs c) (c_internal c) = Ok st
-    /\ (forall n, option_map (fun x => snd (fst x)) (find (fun x => str_eqb (fst (fst x)) n) (r_out st))
-                  = dict_get (d_out den) n)
+Theorem C19_values_are_denotation : forall q den,
+  request_ok (q_funcs q) (q_inputs q) = true ->
+  denote_run sym_body (q_funcs q) (q_inputs q) (q_internal q) = Ok den ->
+  exists st, map_run sym_body (q_funcs q) (q_inputs q) (q_internal q) = Ok st
+    /\ (forall n, outv_of (r_out st) n = dict_get (d_out den) n)
     /\ forallb (fun x => val_eqb (snd (fst x)) (snd x)) (r_out st) = true.
 Proof. exact model_values_denote. Qed.
 Print Assumptions C19_values_are_denotation.
@@ -189,7 +188,7 @@ Definition zsel_witness (kind : nat) : case :=
                      fint := []; fret := [] |} ];
      c_inputs := [ (s "x", VA {| shp := [2]; dat := [s "x_0"; s "x_1"] |});
                    (s "z", VA {| shp := [2]; dat := [s "z_0"; s "z_1"] |}) ];
-     c_internal := []; c_li := true; c_kind := kind |}.
+     c_internal := []; c_li := true; c_kind := kind; c_order := [] |}.
 
 Theorem C19_sel_zipped_refuted :
   exists c, valid c = true /\ c_kind c = 1 /\ spec_ok c (run c) = false.
@@ -210,7 +209,7 @@ Definition conflict_witness : case :=
   {| c_funcs := [ mk1 "f" "y" "x" "i"; mk1 "g" "w" "u" "i" ];
      c_inputs := [ (s "x", VA {| shp := [3]; dat := [s "x_0"; s "x_1"; s "x_2"] |});
                    (s "u", VA {| shp := [2]; dat := [s "u_0"; s "u_1"] |}) ];
-     c_internal := []; c_li := true; c_kind := 0 |}.
+     c_internal := []; c_li := true; c_kind := 0; c_order := [] |}.
 
 Theorem C19_axis_size_conflict_refuted :
   exists c, valid c = true /\ spec_ok c (run c) = false.
@@ -222,7 +221,7 @@ Definition plain_array_witness : case :=
                   {| fname := s "g"; fouts := [s "t"]; fparams := [s "y"]; fbound := []; fdefaults := [];
                      fspec := None; fint := []; fret := [2; 2] |} ];
      c_inputs := [ (s "x", VA {| shp := [2]; dat := [s "x_0"; s "x_1"] |}) ];
-     c_internal := []; c_li := true; c_kind := 0 |}.
+     c_internal := []; c_li := true; c_kind := 0; c_order := [] |}.
 
 Theorem C19_unmapped_array_output_refuted :
   exists c, valid c = true /\ spec_ok c (run c) = false.
@@ -275,19 +274,9 @@ Proof.
 Qed.
 
 Example C19_example_values : (* the witness request is valid: the hypotheses of C19_values_are_denotation hold *)
-  request_ok (c_funcs (zsel_witness 0)) (c_inputs (zsel_witness 0)) = true
-  /\ is_ok (denote_run sym_body (c_funcs (zsel_witness 0)) (c_inputs (zsel_witness 0)) (c_internal (zsel_witness 0))) = true.
-Proof. vm_compute. split; reflexivity. Qed.
-
-(* non-vacuity of the selection theorems: a 2x3 variable with distinct labels on its second dimension *)
-Example C19_example_sel :
-  let a := {| shp := [2; 3]; dat := [s "a0"; s "a1"; s "a2"; s "a3"; s "a4"; s "a5"] |} in
-  let labels := [s "u_0"; s "u_1"; s "u_2"] in
-  nd_wf a = true /\ 1 < length (shp a) /\ length labels = nth 1 (shp a) 0 /\ NoDup labels
-  /\ nth_error labels 1 = Some (s "u_1")
-  /\ sel_label a 1 labels (s "u_1") = Ok {| shp := [2]; dat := [s "a1"; s "a4"] |}.
-Proof.
-  cbv zeta. repeat split; try reflexivity.
-  - cbn. lia.
-  - apply nodup_str_NoDup. reflexivity.
-Qed.
+  match resolve (zsel_witness 0) with
+  | Ok q => request_ok (q_funcs q) (q_inputs q)
+            && is_ok (denote_run sym_body (q_funcs q) (q_inputs q) (q_internal q))
+  | Err _ => false
+  end = true.
+Proof. vm_compute. reflexivity. Qed.
